@@ -1450,6 +1450,24 @@ func (c *fnCtx) inlineHelperX(callee types.Object, call *ast.CallExpr, anyPkg bo
 	exit := Event{Kind: EvExit, Fn: c.fn, Depth: c.depth, Pos: call.End(), Node: call, Target: f, Via: f, ViaCall: call, Helper: true, Loop: c.inLoop(call.Pos())}
 	var out alts
 	for _, sp := range sub {
+		// a sub-path on which a select without default took none of its arms does not come back to the caller
+		// (the helper blocks there): it is a way of not returning, not a way of returning
+		if n := len(sp.Events); n >= 2 && sp.Events[n-1].Kind == EvEnd {
+			blocked := false
+			for k := n - 2; k >= 0; k-- {
+				g := sp.Events[k]
+				if g.Kind == EvGuard {
+					blocked = g.GKind == GSelectCase && !g.Val
+					break
+				}
+				if g.Kind == EvCall || g.Kind == EvAssign || g.Kind == EvReturn || g.Kind == EvEnter || g.Kind == EvExit {
+					break
+				}
+			}
+			if blocked {
+				continue
+			}
+		}
 		evs := []Event{enter}
 		evs = append(evs, sp.Events...)
 		evs = append(evs, exit)
